@@ -27,7 +27,9 @@ use std::sync::atomic::{AtomicU64, Ordering};
 use std::sync::{Arc, Mutex};
 use std::time::{Duration, Instant};
 
-pub const VERIF_DIR: &str = "/verif";
+pub fn verif_dir() -> String {
+    std::env::var("VERIF_DIR").unwrap_or_else(|_| "/verif".to_string())
+}
 
 #[derive(Clone, Copy, PartialEq, Eq, Debug)]
 pub enum Tier {
@@ -314,7 +316,7 @@ pub fn silence_panics() {
 }
 
 fn scratch_dir(id: &str) -> PathBuf {
-    let p = Path::new(VERIF_DIR).join("target").join("run").join(format!("{}-{}", id, std::process::id()));
+    let p = Path::new(&verif_dir()).join("target").join("run").join(format!("{}-{}", id, std::process::id()));
     let _ = std::fs::create_dir_all(&p);
     p
 }
@@ -473,7 +475,7 @@ pub struct Known {
 
 impl Known {
     pub fn load() -> Known {
-        let p = Path::new(VERIF_DIR).join("known_findings.json");
+        let p = Path::new(&verif_dir()).join("known_findings.json");
         let entries = std::fs::read_to_string(p)
             .ok()
             .and_then(|s| serde_json::from_str::<Value>(&s).ok())
@@ -505,7 +507,7 @@ pub fn hash_str(s: &str) -> u64 {
 }
 
 fn write_replay(id: &str, v: &Violation) -> String {
-    let dir = Path::new(VERIF_DIR).join("replays");
+    let dir = Path::new(&verif_dir()).join("replays");
     let _ = std::fs::create_dir_all(&dir);
     let key = format!("{}|{}", v.kind, v.case);
     let p = dir.join(format!("{}-{:016x}.json", id, hash_str(&key)));
@@ -694,7 +696,7 @@ pub fn finish(spec: &Spec, tier: Tier, seed: u64, m: Merged, wall: f64) -> i32 {
         "violations": total_violations,
         "known_findings_reported": known_lines.len(),
     });
-    let edir = Path::new(VERIF_DIR).join("evidence");
+    let edir = Path::new(&verif_dir()).join("evidence");
     let _ = std::fs::create_dir_all(&edir);
     let epath = edir.join(format!("{}.json", spec.id));
     if let Err(e) = std::fs::write(&epath, serde_json::to_string_pretty(&evidence).unwrap() + "\n") {
